@@ -1,6 +1,4 @@
 ---- MODULE Itp_probe ----
 EXTENDS MC_ItpRoundTrip
-ASSUME PrintT(<<"cand4", Cardinality(Cand(4)), "cand1_4", Cardinality(Cand1(4)), "f2_4", Cardinality(Fam2(4)), "f3_4", Cardinality(Fam3(4)), "f4_4", Cardinality(Fam4(4))>>)
-ASSUME PrintT(<<"cand3", Cardinality(Cand(3)), "cand1_3", Cardinality(Cand1(3)), "f2_3", Cardinality(Fam2(3)), "f3_3", Cardinality(Fam3(3)), "f4_3", Cardinality(Fam4(3))>>)
-ASSUME PrintT(<<"F1", Cardinality(Family(Fam1, GraphsFor, TRUE))>>)
+ASSUME PrintT(<<"card", Cardinality(FamilyOn(CoreLayouts, Fam4, GraphsOne, FALSE))>>)
 ====
